@@ -14,7 +14,8 @@ META = {
         "requires `date == d` with d rooted at an in-window candidate at every call site. Any other forward read of the timeline "
         "is reported. R2: the whole-timeline pre-pass influences matching only through cost offsets (its result reaches only "
         "lot cost offsets and 30-day leg costs, never a matched quantity), and only capital-return / accumulation arms write "
-        "them (C11-R1/R4). Does not decide the relation between report(prefix) and report(prefix + suffix)."),
+        "them (C11-R1/R4). R3: tax-year membership is decided by the disposal's own date with an exact 6 April boundary in every "
+        "derivation and filter (shared with C07-R1). Does not decide the relation between report(prefix) and report(prefix + suffix)."),
     "trusted_base": ["C01-R3 interval analysis", "rustc MIR + resolution"],
 }
 
@@ -171,3 +172,12 @@ def run(ctx, rep):
     R = Roles(ctx.F)
     bounded_lookahead(R, rep)
     prepass_influence(R, rep)
+    # a year's totals are final only if membership of a disposal in a tax year depends on its own date alone and the
+    # boundary is exact (shared with C07-R1): a year filter that also admits 6 April of the next year lets a later
+    # transaction change an earlier year's figures
+    import rules.c07 as c07
+    from core import Report
+    r2 = Report("tmp")
+    c07.year_sites(ctx.F, r2)
+    for o in r2.obligations:
+        rep.ob("R3", o["instance"], o["ok"], o["detail"], o["site"], key="R3:" + o["instance"])
